@@ -58,6 +58,10 @@ def _cases(draw, tier):
                 names=['mincost', 'minsqcost', 'mincostlsb', 'maxsize', 'gre', 'gen']))
         else:
             opts = draw(strategies.option_sets(inst, min_crit=1, max_crit=5))
+        if fault_at is None and pct(draw) < 70:
+            strategies.maxsize_first(draw, opts)
+        if fault_at is None and inst.get('lprefs') is not None and pct(draw) < 50:
+            opts = draw(strategies.cost_focus_options(inst))
         case = {'kind': 'solved', 'inst': inst, 'opts': opts, 'salt': salt,
                 'fault_at': fault_at,
                 'fault_kind': draw(st.sampled_from(['Infeasible', 'Undefined', 'NotSolved'])),
